@@ -68,6 +68,26 @@ def cellsJson (es : List Event) : Json :=
   Json.arr (keys.map fun k =>
     Json.arr #[toJson k.1, toJson k.2, ratJson (cellSum es k.1 k.2)]).toArray
 
+/-- a declaratively given matrix `f` tabulated over `rows × cols` -/
+def specTable (rows cols : List Nat) (f : Nat → Nat → Rat) : List (Nat × Nat × Rat) :=
+  rows.flatMap fun r => cols.map fun c => (r, c, f r c)
+
+/-- the non-zero cells of the table -/
+def specCellsJson (tb : List (Nat × Nat × Rat)) : Json :=
+  Json.arr ((tb.filterMap fun e =>
+    if e.2.2 = 0 then none else some (Json.arr #[toJson e.1, toJson e.2.1, ratJson e.2.2])).toArray)
+
+/-- does the accumulated event matrix equal the tabulated definition on `rows × cols`, and does no
+event fall outside? -/
+def specAgrees (es : List Event) (rows cols : List Nat) (tb : List (Nat × Nat × Rat)) : Bool :=
+  (tb.all fun e => cellSum es e.1 e.2.1 == e.2.2) &&
+    es.all fun e => rows.contains e.1 && cols.contains e.2.1
+
+def getBoolD (j : Json) (k : String) (d : Bool) : R Bool :=
+  match getOpt j k with
+  | some v => (fromJson? v : Except String Bool)
+  | none => pure d
+
 def parseTSeqs (j : Json) (k : String) : R (List TSeq) := do
   let a ← j.getObjValAs? (Array (Array (Array Json))) k
   a.toList.mapM fun s => s.toList.mapM fun p =>
@@ -160,12 +180,13 @@ def handle (op : String) (j : Json) : Option (R Json) :=
     | .error e => pure (errJson e)
     | .ok _ =>
       let es := seqEvents cfg S
-      let specOK : Json :=
-        if wantSpec then
-          toJson ((List.range nrows).all fun r =>
-            (List.range (cfg.n * cfg.blocks.length)).all fun c => cellSum es r c == spec cfg S r c)
-        else Json.null
-      pure <| Json.mkObj [("cells", cellsJson es), ("spec_ok", specOK), ("events", toJson es.length)]
+      let rows := List.range nrows
+      let cols := List.range (cfg.n * cfg.blocks.length)
+      let tb := if wantSpec then specTable rows cols (spec cfg S) else []
+      let specOK : Json := if wantSpec then toJson (tb.all fun e => cellSum es e.1 e.2.1 == e.2.2) else Json.null
+      let specCells : Json := if wantSpec then specCellsJson tb else Json.null
+      pure <| Json.mkObj [("cells", cellsJson es), ("spec_ok", specOK), ("spec_cells", specCells),
+        ("events", toJson es.length)]
   | "cooc.ngram" => some do
     let (cfg, bjs) ← parseCfg j
     let S ← getNatss j "seqs"
@@ -173,21 +194,38 @@ def handle (op : String) (j : Json) : Option (R Json) :=
     let nd ← j.getObjValAs? (Array (Array Nat × Nat)) "ndict"
     let nd : NgramDict := nd.toList.map fun e => (e.1.toList, e.2)
     if nsize = 0 then throw "nsize = 0"
+    let wantSpec ← getBoolD j "spec" false
     match tablesCover (bjs.map (·.table)) (nd.map (·.2)) with
     | .error e => pure (errJson e)
-    | .ok _ => pure <| Json.mkObj [("cells", cellsJson (ngramEvents cfg nd nsize S))]
+    | .ok _ =>
+      let es := ngramEvents cfg nd nsize S
+      -- the declarative definition `specNgram` (theorem `ngram_events_eq_spec`), cell by cell
+      let rows := (nd.map (·.2)).eraseDups
+      let cols := List.range (cfg.n * cfg.blocks.length)
+      let tb := if wantSpec then specTable rows cols (specNgram cfg nd nsize S) else []
+      pure <| Json.mkObj [("cells", cellsJson es),
+        ("spec_cells", if wantSpec then specCellsJson tb else Json.null),
+        ("spec_ok", if wantSpec then toJson (specAgrees es rows cols tb) else Json.null)]
   | "cooc.multi" => some do
     let (cfg, bjs) ← parseCfg j
     let docs ← getNatsss j "docs"
     let mask := match bjs with
       | b :: _ => b.block.args.mask
       | [] => none
+    let wantSpec ← getBoolD j "spec" false
     match tablesCover (bjs.map (·.table)) docs.flatten.flatten with
     | .error e => pure (errJson e)
     | .ok _ =>
       match multiEvents cfg mask docs with
       | .error e => pure (errJson e)
-      | .ok es => pure <| Json.mkObj [("cells", cellsJson es)]
+      | .ok es =>
+        -- the declarative definition `specMulti` (theorem `multi_events_eq_spec`), cell by cell
+        let rows := List.range cfg.n
+        let cols := List.range (cfg.n * cfg.blocks.length)
+        let tb := if wantSpec then specTable rows cols (specMulti cfg mask docs) else []
+        pure <| Json.mkObj [("cells", cellsJson es),
+          ("spec_cells", if wantSpec then specCellsJson tb else Json.null),
+          ("spec_ok", if wantSpec then toJson (specAgrees es rows cols tb) else Json.null)]
   | "cooc.labels" => some do
     let os ← j.getObjValAs? (Array String) "orients"
     let n ← getNat j "n"
